@@ -191,12 +191,34 @@ kf("C19", "C19-template-close-ge", "`vec2<f32>=...` (no space between a template
 # ---------------------------------------------------------------- C11 (diagnostics)
 kf("C11", "C11-silent-expect", "a missing ')' ']' or '>' was silently accepted by Parser.expect: `f(1, 2;`, `o[0;`, `@group(0 @binding(0)` compiled, or the error was reported at an unrelated earlier position",
    ["C11|unbalanced-delimiter|*"], "fixed:dd2be53")
-kf("C11", "C11-const-div-zero-contexts", "integer division/remainder by zero is not diagnosed when the constant expression is a @workgroup_size argument or an array size (`@workgroup_size((1 / 0))`, `array<i32, (3 / 0)>`): the program compiles",
-   ["C11|const-div-zero@workgroup_size|accepted|*", "C11|const-mod-zero@workgroup_size|accepted|*", "C11|const-div-zero@array-size|accepted|*", "C11|const-mod-zero@array-size|accepted|*"])
-kf("C11", "C11-call-arg-type-unchecked", "a user-function call whose argument has the wrong concrete type is accepted: `f(1.5f, c1)` for `fn f(c0: u32, c1: u32)`; only bool/non-bool mismatches are diagnosed",
-   ["C11|call-arg-type|accepted|*"])
-kf("C11", "C11-negative-array-size", "`array<T, -1>` is accepted in an alias or struct member (a non-positive size is only diagnosed for 0)",
-   ["C11|array-size-negative|accepted|*"])
+kf("C11", "C11-const-div-zero-contexts", "integer division/remainder by zero in a constant expression is diagnosed only in module-scope `const` initialisers and `case` selectors; everywhere else that was enumerated the program compiles: function bodies (`acc = 1 / 0;`, `const t = 1 % 0;`, `let t = KC / KZ;`), array sizes (`array<i32, (3 / 0)>`), `@workgroup_size((1 / 0))`, @align/@size/@location arguments, override and typed `var<private> p: i32 = 1 / 0` initialisers, `const_assert 4 == (1 / 0)`",
+   ["C11|const-div-zero@workgroup_size|accepted|*", "C11|const-mod-zero@workgroup_size|accepted|*", "C11|const-div-zero@array-size|accepted|*", "C11|const-mod-zero@array-size|accepted|*",
+    "C11|G:const-div-zero(*|accepted|*", "C11|M:const-div-zero(*|accepted|*",
+    "C11|const-div-zero@const|accepted|rich/*", "C11|const-mod-zero@const|accepted|rich/*", "C11|const-div-zero@const_assert|accepted|rich/*", "C11|const-mod-zero@const_assert|accepted|rich/*"])
+kf("C11", "C11-call-arg-type-unchecked", "a user-function call whose argument has the wrong concrete type is accepted: `f(1.5f, c1)` for `fn f(c0: u32, c1: u32)`; only bool/non-bool, scalar/vector/struct and vector-width mismatches are diagnosed (scalar kinds i32/u32/f32/abstract-float, vector element types and distinct struct types are interchangeable: `f1(1.5f)`, `f1(1u)`, `f1(1.5)` for `fn f1(a: i32)`, `fv(vec3<i32>())` for vec3<f32>, `fs(SJ(1, 2))` for `fn fs(s: SI)`)",
+   ["C11|call-arg-type|accepted|*",
+    "C11|G:call-arg-type(call-i32:i32<-f32)|accepted|*", "C11|G:call-arg-type(call-i32:i32<-u32)|accepted|*", "C11|G:call-arg-type(call-i32:i32<-absfloat)|accepted|*",
+    "C11|G:call-arg-type(call-i32-f32:i32<-f32)|accepted|*", "C11|G:call-arg-type(call-i32-f32:f32<-u32)|accepted|*", "C11|G:call-arg-type(call-i32-f32:f32<-i32)|accepted|*",
+    "C11|G:call-arg-type(call-vec:vec3f<-vec3i)|accepted|*", "C11|G:call-arg-type(call-struct:struct<-other-struct)|accepted|*", "C11|G:call-arg-type(stmt-call:stmt-i32<-f32)|accepted|*"])
+kf("C11", "C11-negative-array-size", "`array<T, -1>` (also `array<T, 1 - 2>`, `array<T, KN>` with `const KN = -1`, and as a nested element type) is accepted wherever a type can be written: alias, struct member, module-scope and function-scope var, parameter, return type, pointer pointee, constructor (a non-positive size is only diagnosed for 0)",
+   ["C11|array-size-negative|accepted|*", "C11|G:array-size-negative(*|accepted|*", "C11|M:array-size-negative(*|accepted|*"])
+kf("C11", "C11-unchecked-const-expression-contexts", "the expression in an array size, a @workgroup_size / @align / @size / @location argument, a `const_assert` operand (module and function scope), an override initialiser or a typed `var<private> p: i32 = E` initialiser is not resolved strictly: an undeclared identifier (`array<i32, zz>`, `@workgroup_size(zz)`, `const_assert zz > 0;`, `var<private> p: i32 = zz;`), an unknown function, an unknown struct member or an invalid swizzle there is accepted and the program compiles",
+   ["C11|M:undeclared-identifier(ident-const:*|accepted|*", "C11|M:unknown-function(unknown-fn-const:*|accepted|*", "C11|M:unknown-member(member-ctor:*|accepted|*", "C11|M:swizzle-*(swizzle-const:*|accepted|*",
+    "C11|G:undeclared-identifier(ident-const:*|accepted|local-array-size/*", "C11|G:unknown-function(unknown-fn-const:*|accepted|local-array-size/*", "C11|G:unknown-member(member-ctor:*|accepted|local-array-size/*", "C11|G:swizzle-*(swizzle-const:*|accepted|local-array-size/*",
+    "C11|G:undeclared-identifier(ident-const:*|accepted|const-assert-stmt/*", "C11|G:unknown-function(unknown-fn-const:*|accepted|const-assert-stmt/*", "C11|G:unknown-member(member-ctor:*|accepted|const-assert-stmt/*", "C11|G:swizzle-*(swizzle-const:*|accepted|const-assert-stmt/*",
+    "C11|undeclared-identifier|accepted|rich/all-declaration-and-statement-kinds"])
+kf("C11", "C11-const-assert-forward-const", "a false `const_assert KC == 1;` (function scope or module scope) is accepted when the module constant it mentions (`const KC: i32 = 4;`) is declared after the assertion / after the function containing it: an assertion that cannot be evaluated at that point passes silently",
+   ["C11|G:const-assert-false(const-assert-const:module-const)|accepted|stmt/*/decls-after", "C11|M:const-assert-false(const-assert-const:module-const)|accepted|module-const-assert/after-users"])
+kf("C11", "C11-function-const-scope-leak", "a function-scope `const k = 7;` declared in a nested block (if/else arm, loop body, switch clause, compound statement) stays visible after the block ends: `{ const k = 7; } acc = k;` and `if c { const k = 7; } else { acc = k; }` compile (let/var are scoped correctly)",
+   ["C11|S:undeclared-identifier(out-of-scope:const:value)|accepted|*"])
+kf("C11", "C11-builtin-result-discarded", "a call statement that discards the result of a builtin function (`min(1, 2);`; every value-returning builtin is @must_use in WGSL) is accepted; only user functions marked @must_use are diagnosed",
+   ["C11|G:must-use-discarded(must-use:builtin)|accepted|*"])
+kf("C11", "C11-vector-unknown-element-type", "`vec2<ZzUnknownType>()` (a vector constructor whose element type does not exist) is accepted; the same type in a `var t: vec2<ZzUnknownType>` annotation is rejected",
+   ["C11|G:unknown-type(type:vector-element)|accepted|*-ctor-type/*"])
+kf("C11", "C11-let-type-annotation-ignored", "the type annotation of a function-scope `let` is never resolved: `let t: ZzUnknownType = array<i32, 4>(1, 2, 3, 4);`, `let t: array<i32, 0> = ...`, `let t: array<i32, KZ> = ...` (const KZ = 0) and even `let t: f32 = 1u;` compile (the same types on a `var` are rejected)",
+   ["C11|G:unknown-type(*|accepted|let-type/*", "C11|G:array-size-zero(*|accepted|let-type/*"])
+kf("C11", "C11-forward-call-inside-bitcast", "a call inside `bitcast<T>(...)` is invisible to the declaration-order analysis: in an entry point written before the callee, `bitcast<i32>(f1())` / `bitcast<i32>(f1(1, 2))` for `fn f1(a: i32) -> i32` compiles (no argument count/type check), and `bitcast<i32>(fp(1))` for a pointer parameter fails only in ir.Validate, without a source position (in a helper function the valid call fails in the SPIR-V backend: 'function 1 not found in functionIDs')",
+   ["C11|G:call-arg-count(*|accepted|bitcast/*/entry/decls-after", "C11|G:call-arg-type(*|accepted|bitcast/*/entry/decls-after", "C11|G:call-arg-type(call-ptr:ptr<-literal)|no-position|bitcast/*/entry/decls-after"])
 
 # ---------------------------------------------------------------- C07 (memory layout)
 kf("C07", "C07-inner-struct-align-attribute", "the alignment of a struct whose member carries @align(n) is not propagated to the enclosing struct/array: `struct I0 { @align(16) m0: u32 } struct S0 { m0: u32, m1: I0, m2: u32 }` places m1 at offset 4 (span 24) where WGSL has offset 16 (size 48); wrong in the IR, in SPIR-V Offset decorations and in every backend's addressing",
